@@ -92,3 +92,65 @@ def truth_table(paths, spec_dnf, ctx=None):
             if code != want:
                 bad.append((assign, f'code={code} spec={want}'))
     return bad, bools + [repr(d)[:60] for d in diffs]
+
+
+
+def purity_scan(model, cls, fn, allowed_self_stores=()):
+    """AST rule: a method that must answer from the present state only may not keep or consult memoised
+    state.  Reports [(lineno, what)]: stores into containers that are not locals, stores to self attributes other
+    than the allowed result attributes, mutating calls on non-local containers, reads of class-level mutable
+    attributes, global/nonlocal."""
+    import ast as _ast
+    out = []
+    locals_ = {a.arg for a in fn.args.args}
+    for n in _ast.walk(fn):
+        if isinstance(n, (_ast.Assign, _ast.AugAssign, _ast.AnnAssign)):
+            tg = n.targets if isinstance(n, _ast.Assign) else [n.target]
+            for t in tg:
+                for x in _ast.walk(t):
+                    if isinstance(x, _ast.Name) and isinstance(x.ctx, _ast.Store):
+                        locals_.add(x.id)
+        if isinstance(n, (_ast.For, _ast.comprehension)):
+            for x in _ast.walk(n.target):
+                if isinstance(x, _ast.Name):
+                    locals_.add(x.id)
+    class_mutables = set()
+    for c in model.mro(cls) if cls else []:
+        ci = model.classes.get(c)
+        if ci:
+            for name, v in ci.class_attrs.items():
+                if isinstance(v, (_ast.Dict, _ast.List, _ast.Set)) or (isinstance(v, _ast.Call) and _ast.unparse(v.func) in ('dict', 'list', 'set', 'defaultdict')):
+                    if name != '__UNITS':
+                        class_mutables.add(name)
+
+    def root(x):
+        while isinstance(x, (_ast.Attribute, _ast.Subscript)):
+            x = x.value
+        return x
+    for n in _ast.walk(fn):
+        if isinstance(n, (_ast.Global, _ast.Nonlocal)):
+            out.append((n.lineno, f'{type(n).__name__.lower()} state'))
+        if isinstance(n, _ast.Subscript) and isinstance(n.ctx, _ast.Store):
+            r = root(n)
+            if not (isinstance(r, _ast.Name) and r.id in locals_ and r.id != 'self'):
+                out.append((n.lineno, f'stores into the shared container `{_ast.unparse(n.value)[:50]}`'))
+            elif isinstance(r, _ast.Name) and r.id == 'self':
+                out.append((n.lineno, f'stores into `{_ast.unparse(n.value)[:50]}`'))
+        if isinstance(n, _ast.Attribute) and isinstance(n.ctx, _ast.Store) and isinstance(n.value, _ast.Name) and n.value.id == 'self':
+            if n.attr not in allowed_self_stores:
+                out.append((n.lineno, f'stores the attribute self.{n.attr}'))
+        if isinstance(n, _ast.Attribute) and isinstance(n.ctx, _ast.Load) and n.attr in class_mutables:
+            out.append((n.lineno, f'consults the class-level mutable `{n.attr}` (shared by all instances)'))
+        if isinstance(n, _ast.Call) and isinstance(n.func, _ast.Attribute) and n.func.attr in (
+                'setdefault', 'update', 'pop', 'popitem', 'clear', 'append', 'extend', 'insert', 'remove'):
+            r = root(n.func.value)
+            if not (isinstance(r, _ast.Name) and r.id in locals_ and r.id != 'self'):
+                out.append((n.lineno, f'mutates the shared container `{_ast.unparse(n.func.value)[:50]}`'))
+        if isinstance(n, _ast.Call) and isinstance(n.func, _ast.Name) and n.func.id in ('lru_cache', 'cache', 'getattr', 'setattr', 'hasattr'):
+            if n.func.id in ('setattr',) or (n.func.id in ('getattr', 'hasattr') and n.args and isinstance(n.args[0], _ast.Name) and n.args[0].id == 'self'
+                                               and len(n.args) > 1 and isinstance(n.args[1], _ast.Constant) and str(n.args[1].value).startswith('_')):
+                out.append((n.lineno, f'dynamic attribute access `{_ast.unparse(n)[:50]}` (hidden state)'))
+    for d in fn.decorator_list:
+        if 'cache' in _ast.unparse(d):
+            out.append((fn.lineno, f'memoising decorator {_ast.unparse(d)}'))
+    return out
